@@ -5,6 +5,7 @@
 (* one per ingested dump:                                                    *)
 (*   [tid, sel, dump: <<[title, ns, model, red, body, inc]>>,                *)
 (*    store: <<[title, ns, redirect, body, model]>>]                         *)
+(* (redirect targets as atoms behind the marker "=>", see Ingest)            *)
 (* For every event the model ingests the recorded dump action by action; the *)
 (* recorded store (get_all_pages) is compared with what the property demands. *)
 EXTENDS Naturals, Sequences, FiniteSets, TLC, Json, IOUtils
@@ -44,12 +45,27 @@ Judge ==
       exp == I!Expected(dump, sel)
       asis == I!StoreAfter(dump, sel, TRUE)
       modelOK == cur = exp /\ com = cur
+      diff == (exp \ obs) \cup (obs \ exp)
+      \* rows of ambiguous pages set aside, the known as-is store is the reference when the
+      \* observation is that store up to redirect targets (and the demanded store is not)
+      U(S) == I!Unambiguous(dump, S)
+      Near(S) == U(obs) = U(S) \/ I!RedirectOnlyDiff(U(S), U(obs))
+      useAsis == asis # exp /\ Near(asis) /\ ~Near(exp)
+      ref == IF useAsis THEN asis ELSE exp
       why == IF ~modelOK THEN "model"
              ELSE IF obs = asis THEN "asis"
-             ELSE IF I!OnlyAmbiguousRows(dump, (exp \ obs) \cup (obs \ exp)) THEN "ambiguous" ELSE "other"
+             ELSE IF I!OnlyAmbiguousRows(dump, diff) THEN "ambiguous"
+             ELSE IF useAsis /\ U(obs) = U(asis) THEN "asis+ambiguous"
+             \* apart from rows of ambiguous pages only redirect targets differ: another spelling of
+             \* a target that was not written the way an export writes it (drift), or another target
+             ELSE IF I!RespelledOnly(U(ref), U(obs))
+                  THEN (IF useAsis THEN "asis+respelled" ELSE "respelled")
+             ELSE IF I!RedirectOnlyDiff(U(ref), U(obs)) THEN "redirect"
+             ELSE "other"
   IN bad' = IF modelOK /\ obs = exp /\ Len(e.store) = Cardinality(obs) THEN bad
             ELSE Append(bad, [i |-> l, tid |-> e.tid, why |-> why,
-                              missing |-> exp \ obs, unexpected |-> obs \ exp])
+                              missing |-> exp \ obs, unexpected |-> obs \ exp,
+                              rmissing |-> U(ref \ obs), runexpected |-> U(obs \ ref)])
 
 TNext ==
   /\ l <= Len(Events)
@@ -62,5 +78,5 @@ TNext ==
 TSpec == TInit /\ [][TNext]_tvars
 
 Verdict == (l = Len(Events) + 1) => PrintT(<<"VERDICT", ToJson([consumed |-> l - 1, bad |-> bad])>>)
-ModelInv == I!PrefixIsExpected /\ I!FoldAgrees
+ModelInv == I!PrefixIsExpected /\ I!FoldAgrees /\ I!RedirectsVerbatim
 =============================================================================
